@@ -686,6 +686,8 @@ func (b *builder) faults(prog []*scen.TestNode, kill bool) []scen.Fault {
 		{"readdir", []string{"EIO"}},
 		{"remove", []string{"EACCES"}},
 		{"cleanopen", []string{"EIO", "EACCES"}},
+		{"cleanwrite", []string{"ENOSPC", "EIO"}},
+		{"cleantruncate", []string{"EIO"}},
 	}
 	n := 1 + r.Intn(3)
 	var out []scen.Fault
@@ -698,6 +700,14 @@ func (b *builder) faults(prog []*scen.TestNode, kill bool) []scen.Fault {
 			f.CallID = -2
 			f.PathSuffix = []string{"zz_world_a_test.snap", "zz_world_b_test.snap", "zz_world_c.snapshot_test.snap", "shared.snap", "data.snap"}[r.Intn(5)]
 			f.Nth = 1
+		}
+		if k.kind == "cleanwrite" || k.kind == "cleantruncate" {
+			// Clean rewriting a used snapshot file: the n-th entry it writes back fails (or
+			// the process dies there: the file is left truncated or half rewritten)
+			f.Kind = strings.TrimPrefix(k.kind, "clean")
+			f.CallID = -2
+			f.PathSuffix = []string{"zz_world_a_test.snap", "zz_world_b_test.snap", "zz_world_c.snapshot_test.snap", "shared.snap", "data.snap"}[r.Intn(5)]
+			f.Nth = 1 + r.Intn(3)
 		}
 		if k.kind == "readdir" || k.kind == "remove" {
 			// operations of Clean: addressed by directory, because Clean visits directories
